@@ -283,15 +283,24 @@ func tautologicalSkip(c *Ctx, rm recMod, f *ssa.Function) bool {
 			continue
 		}
 		bo, ok := iff.Cond.(*ssa.BinOp)
-		if !ok || bo.Op != token.GTR {
+		if !ok {
 			continue
 		}
-		add, ok := bo.X.(*ssa.BinOp)
+		// v+1 > v, or mirrored v < v+1 (also >= / <=: equally always true)
+		big, small := bo.X, bo.Y
+		switch bo.Op {
+		case token.GTR, token.GEQ:
+		case token.LSS, token.LEQ:
+			big, small = bo.Y, bo.X
+		default:
+			continue
+		}
+		add, ok := big.(*ssa.BinOp)
 		if !ok || add.Op != token.ADD {
 			continue
 		}
 		if cst, ok := add.Y.(*ssa.Const); ok && cst.Value != nil && cst.Value.String() == "1" {
-			if c.W.ExprOf(add.X).String() == c.W.ExprOf(bo.Y).String() {
+			if c.W.ExprOf(add.X).String() == c.W.ExprOf(small).String() {
 				return true
 			}
 		}
@@ -440,7 +449,7 @@ func C08(c *Ctx) {
 		"(A2) in the purchase handler every state-changing step is guarded by the owner predicate (C13), by not(limit+number > params.MaxStorageLimit) and by the wrap check not(limit+number < limit), where limit is the stored limit of the registration named in the message; the stored new limit is exactly that checked sum, under the key of that id; " +
 		"(A9, sink-scoped) every uint64 +/- on message/state/param values in the functions reachable from the record and purchase handlers and the storage query is range-guarded by a dominating comparison (or is a ±1 counter step whose decrement is guarded by count > limit); " +
 		"(A3) in the record step the record write is followed by count+1, and a prune (delete) is always paired with count-1 and an update of the lowest/first marker, the decrement never occurring without a delete; (A7) the storage query reports the keeper's saturating remaining-capacity value. 'Exactly the newest min(total, limit) records' is inductive and not decided."
-	r.Rules = []string{"A1.limit-writers", "A2.purchase-guards", "A7.new-limit", "A9.uint64-range", "A3.prune-pairing", "A7.max-purchasable"}
+	r.Rules = []string{"A1.limit-writers", "A2.purchase-guards", "A7.new-limit", "A9.uint64-range", "A3.prune-pairing", "A11.iter-end-bound", "A7.max-purchasable"}
 	r.Trusted = []string{"the ante max-slot check is only an early reject; the handler is the authority"}
 	r.NotDecided = []string{"exactly the newest min(total, limit) records are retained (inductive, numeric)", "behaviour after governance lowers limits below current usage"}
 	for _, rm := range recMods {
@@ -506,6 +515,10 @@ func C08(c *Ctx) {
 		r.Floor("limit writes reachable from "+rm.M+" purchase handler", nl, 1)
 		uint64Range(c, rm, []*ssa.Function{h, handlerOf(c, rm.M, rm.Record), queryOf(c, rm.M, rm.StorageQuery)}, sum)
 		prunePairing(c, rm)
+		// the markers recomputed after a prune come from scans of the record section: none may stop short of its last record
+		if ni, nbad := iterEndBounds(c, "A11.iter-end-bound", moduleFuncs(c, rm.M), true); nbad == 0 {
+			r.OK("A11.iter-end-bound", rm.M+"|none", "", fmt.Sprintf("no raw store iterator of %s ends at an ordinary key (%d raw iterators)", rm.M, ni))
+		}
 		// A7: storage query
 		if q := queryOf(c, rm.M, rm.StorageQuery); q != nil {
 			ok := false
@@ -612,18 +625,39 @@ func uint64Range(c *Ctx, rm recMod, roots []*ssa.Function, checkedSum func(*ir.E
 					ok2, why = true, "increment by one (counter step)"
 				case bo.Op == token.SUB:
 					// guarded by x > _, x >= y, x != 0 ...
-					ok2 = w.Guarded(f, in, func(p ir.Pred) bool {
-						if cmpIs(p, ">=", func(a *ir.Expr) bool { return a.String() == x.String() }, func(b2 *ir.Expr) bool { return b2.String() == y.String() }) ||
-							cmpIs(p, ">", func(a *ir.Expr) bool { return a.String() == x.String() }, func(b2 *ir.Expr) bool { return b2.String() == y.String() }) {
-							return true
+					subGuard := func(x, y *ir.Expr) ir.Matcher {
+						return func(p ir.Pred) bool {
+							if cmpIs(p, ">=", func(a *ir.Expr) bool { return a.String() == x.String() }, func(b2 *ir.Expr) bool { return b2.String() == y.String() }) ||
+								cmpIs(p, ">", func(a *ir.Expr) bool { return a.String() == x.String() }, func(b2 *ir.Expr) bool { return b2.String() == y.String() }) {
+								return true
+							}
+							if one {
+								// x - 1 under x > anything (uint64) or x != 0
+								return cmpIs(p, ">", func(a *ir.Expr) bool { return a.String() == x.String() }, func(*ir.Expr) bool { return true }) ||
+									cmpIs(p, "!=", func(a *ir.Expr) bool { return a.String() == x.String() }, func(b2 *ir.Expr) bool { return b2.Op == "const" && b2.Name == "0" })
+							}
+							return false
 						}
-						if one {
-							// x - 1 under x > anything (uint64) or x != 0
-							return cmpIs(p, ">", func(a *ir.Expr) bool { return a.String() == x.String() }, func(*ir.Expr) bool { return true }) ||
-								cmpIs(p, "!=", func(a *ir.Expr) bool { return a.String() == x.String() }, func(b2 *ir.Expr) bool { return b2.Op == "const" && b2.Name == "0" })
+					}
+					ok2 = w.Guarded(f, in, subGuard(x, y), 1)
+					if !ok2 {
+						// the guard may stand in a caller (the step was extracted into a helper): judge every call chain
+						// from the handlers, with the operands in the caller's terms
+						n2, all := 0, true
+						tup := &ir.Expr{Op: "tuple", Args: []*ir.Expr{x, y}}
+						for _, root := range rs {
+							for _, up := range w.OriginsUpTo(f, tup, root, 8) {
+								if len(up.Chain) == 0 || up.E.Op != "tuple" || len(up.E.Args) != 2 {
+									continue
+								}
+								n2++
+								if !chainGuarded(c, root, up.Chain, in, subGuard(up.E.Args[0], up.E.Args[1]), 1) {
+									all = false
+								}
+							}
 						}
-						return false
-					}, 1)
+						ok2 = n2 > 0 && all
+					}
 					why = "subtraction needs a dominating x >= y (or x > _ for x-1)"
 				case bo.Op == token.ADD:
 					// wrap check after the fact: every use is guarded by sum >= operand; or the sum (instantiated at the handler) is the checked sum
@@ -734,65 +768,79 @@ func prunePairing(c *Ctx, rm recMod) {
 		if len(wr) == 0 || len(dl) == 0 || len(wr) > 0 && callReaching(c, f, isD)(wr[0]) {
 			continue
 		}
-		// stores to the count / lowest fields of the local registration struct
-		fieldStores := func(field string, op token.Token) []ssa.Instruction {
-			var out []ssa.Instruction
-			for _, b := range f.Blocks {
-				for _, in := range b.Instrs {
-					st, ok := in.(*ssa.Store)
-					if !ok {
-						continue
+		// Asked on the flat (call-expanded) view of f: the record write / delete, the counter and marker
+		// assignments and the registration re-store may each stand in f or in a helper it calls.
+		isFieldStore := func(field string, op token.Token) func(ssa.Instruction) bool {
+			return func(in ssa.Instruction) bool {
+				st, ok := in.(*ssa.Store)
+				if !ok {
+					return false
+				}
+				fa, ok := st.Addr.(*ssa.FieldAddr)
+				if !ok || ir.FieldName(fa.X.Type(), fa.Field) != field {
+					return false
+				}
+				if op == token.ILLEGAL {
+					return true
+				}
+				if bo, ok := st.Val.(*ssa.BinOp); ok && bo.Op == op {
+					if cst, ok := bo.Y.(*ssa.Const); ok && cst.Value != nil && cst.Value.String() == "1" {
+						return true
 					}
-					fa, ok := st.Addr.(*ssa.FieldAddr)
-					if !ok || ir.FieldName(fa.X.Type(), fa.Field) != field {
-						continue
-					}
-					if op == token.ILLEGAL {
-						out = append(out, in)
-						continue
-					}
-					if bo, ok := st.Val.(*ssa.BinOp); ok && bo.Op == op {
-						if cst, ok := bo.Y.(*ssa.Const); ok && cst.Value != nil && cst.Value.String() == "1" {
-							out = append(out, in)
+				}
+				return false
+			}
+		}
+		isInc := isFieldStore(rm.Count, token.ADD)
+		isDec := isFieldStore(rm.Count, token.SUB)
+		isLow := isFieldStore(rm.Lowest, token.ILLEGAL)
+		isWr := directSites(c, isW)
+		isDl := directSites(c, isD)
+		isRe := directSites(c, func(e ir.Effect) bool { return e.Kind == "StoreWrite" && e.Section == rm.SecReg })
+		n++
+		root := w.FlatRoot(f)
+		count := func(is func(ssa.Instruction) bool) int { return len(w.FlatOccurrences(root, is)) }
+		nInc, nDec, nLow := count(isInc), count(isDec), count(isLow)
+		afterNeeds := func(from func(ssa.Instruction) bool, need func(ssa.Instruction) bool) (bad *ir.FPos) {
+			for _, occ := range w.FlatOccurrences(root, from) {
+				o := occ
+				if hit := w.FlatReaches(root, &o, &ir.FlatCut{Barrier: func(_ *ir.FCtx, in ssa.Instruction) bool { return need(in) }}, func(p ir.FPos) bool { return isRe(p.In) }); hit != nil {
+					return &o
+				}
+			}
+			return nil
+		}
+		// after the record write, every path to the registration re-store passes count+1
+		bad := afterNeeds(isWr, isInc)
+		r.Require(bad == nil && nInc > 0, "A3.prune-pairing", rm.M+"|write->count+1|"+fn(f), w.Pos(f.Pos()), "a recorded item is always counted ("+rm.Count+" + 1) before the registration is stored", "a path stores the registration without the increment")
+		bad = afterNeeds(isDl, isDec)
+		r.Require(bad == nil && nDec > 0, "A3.prune-pairing", rm.M+"|delete->count-1|"+fn(f), w.Pos(f.Pos()), "a pruned record is always un-counted ("+rm.Count+" - 1) before the registration is stored", "a path stores the registration without the decrement")
+		bad = afterNeeds(isDl, isLow)
+		r.Require(bad == nil && nLow > 0, "A3.prune-pairing", rm.M+"|delete->lowest|"+fn(f), w.Pos(f.Pos()), "after pruning, the "+rm.Lowest+" marker is updated before the registration is stored", "a path stores the registration without updating it")
+		if nDec > 0 {
+			// (the pruning step counts as a whole: a delete helper that skips an absent key is still the delete step)
+			isDlStep := func(in ssa.Instruction) bool {
+				if isDl(in) {
+					return true
+				}
+				if call, ok := in.(ssa.CallInstruction); ok {
+					for _, t := range w.CalleesOf(call) {
+						if reachesEffect(c, t, isD) && !reachesEffect(c, t, isW) {
+							return true
 						}
 					}
 				}
+				return false
 			}
-			return out
-		}
-		inc := fieldStores(rm.Count, token.ADD)
-		dec := fieldStores(rm.Count, token.SUB)
-		low := fieldStores(rm.Lowest, token.ILLEGAL)
-		n++
-		is := func(set []ssa.Instruction) func(ssa.Instruction) bool {
-			return func(in ssa.Instruction) bool { return containsInstr(set, in) }
-		}
-		reStore := callReaching(c, f, func(e ir.Effect) bool { return e.Kind == "StoreWrite" && e.Section == rm.SecReg })
-		// after the record write, every path to the registration re-store passes count+1
-		for _, s := range wr {
-			for _, rs := range findInstrs(f, reStore) {
-				ok := !ir.ReachesFrom(f, s.Block(), ir.InstrIndex(s)+1, rs, ir.Cut{Barrier: is(inc)})
-				r.Require(ok && len(inc) > 0, "A3.prune-pairing", rm.M+"|write->count+1|"+fn(f), pos(c, s), "a recorded item is always counted ("+rm.Count+" + 1) before the registration is stored", "a path stores the registration without the increment")
-			}
-		}
-		for _, d := range dl {
-			for _, rs := range findInstrs(f, reStore) {
-				ok := !ir.ReachesFrom(f, d.Block(), ir.InstrIndex(d)+1, rs, ir.Cut{Barrier: is(dec)})
-				r.Require(ok && len(dec) > 0, "A3.prune-pairing", rm.M+"|delete->count-1|"+fn(f), pos(c, d), "a pruned record is always un-counted ("+rm.Count+" - 1) before the registration is stored", "a path stores the registration without the decrement")
-				ok2 := !ir.ReachesFrom(f, d.Block(), ir.InstrIndex(d)+1, rs, ir.Cut{Barrier: is(low)})
-				r.Require(ok2 && len(low) > 0, "A3.prune-pairing", rm.M+"|delete->lowest|"+fn(f), pos(c, d), "after pruning, the "+rm.Lowest+" marker is updated before the registration is stored", "a path stores the registration without updating it")
-			}
-		}
-		for _, x := range dec {
-			r.Require(ir.Precedes(f, is(dl), x, nil), "A3.prune-pairing", rm.M+"|count-1 needs delete|"+fn(f), pos(c, x), "the in-state count is decremented only after a record was deleted", "a path decrements without deleting")
+			r.Require(w.FlatPrecedesM(f, isDlStep, isDec, nil), "A3.prune-pairing", rm.M+"|count-1 needs delete|"+fn(f), w.Pos(f.Pos()), "the in-state count is decremented only after a record was deleted", "a path decrements without deleting")
 			// and only when count > limit
-			g := w.Guarded(f, x, func(p ir.Pred) bool {
+			un := w.FlatGuarded(f, isDec, func(p ir.Pred) bool {
 				return cmpIs(p, ">", func(a *ir.Expr) bool { return a.Any(func(z *ir.Expr) bool { return z.Op == "field" && z.Name == rm.Count }) }, func(b *ir.Expr) bool {
 					_, ok := allStateField(c, b, rm.SecLimit, "InStateLimit")
 					return ok || w.Expand(b, 4).Any(func(z *ir.Expr) bool { return isStateField(z, rm.SecLimit, "InStateLimit") })
 				})
 			}, 1)
-			r.Require(g, "A3.prune-pairing", rm.M+"|prune-only-over-limit|"+fn(f), pos(c, x), "pruning happens only when the in-state count exceeds the stored in-state limit", "no dominating count > limit")
+			r.Require(len(un) == 0, "A3.prune-pairing", rm.M+"|prune-only-over-limit|"+fn(f), w.Pos(f.Pos()), "pruning happens only when the in-state count exceeds the stored in-state limit", "no dominating count > limit")
 		}
 	}
 	r.Floor("insert-then-prune functions of "+rm.M, n, 1)
